@@ -141,6 +141,10 @@ def custom_node_cases(ctx, cases=None):
                     log.append(("handled", x if not isinstance(x, tuple) else list(x)))
                     fut.set_result(None)
                     await vloop.settle(loop)
+            if kind == "map_async":
+                h.stop()                 # let the worker task end with the loop
+                await vloop.settle(loop)
+            del raw
         vloop.run(main)
         ctx.count("custom-node:" + kind)
         handled = [e[1] for e in log if e[0] == "handled"]
